@@ -556,6 +556,33 @@ func runWide(r *vk.Run, scripted int) error {
 	}
 	sessions := 2 + w.rng.Intn(2)
 	steps := 12 + w.rng.Intn(20)
+	// UNIQUE indexes can only be created on empty tables: often do it first, sometimes while another
+	// session holds a transaction it opened before (on a cold catalog cache) and commits after
+	for ti, t := range w.tables {
+		if w.rng.Intn(3) == 0 {
+			continue
+		}
+		idle := w.rng.Intn(3) == 0
+		if idle {
+			if report(w.runStep(wstep{sid: 1, sql: "BEGIN TRANSACTION"}, last, &failedSince)) {
+				finish()
+				return nil
+			}
+			if w.rng.Intn(2) == 0 {
+				w.runStep(wstep{sid: 1, kind: "select", table: ti}, last, &failedSince)
+			}
+		}
+		var q string
+		var ap func()
+		for q == "" || !strings.Contains(q, "INDEX") {
+			q, ap = w.ddl(t)
+		}
+		apc := ap
+		w.runStep(wstep{sid: 0, sql: q, apply: func(*wide) { apc() }}, last, &failedSince)
+		if idle {
+			w.runStep(wstep{sid: 1, sql: "COMMIT"}, last, &failedSince)
+		}
+	}
 	for i := 0; i < steps; i++ {
 		sid := w.rng.Intn(sessions)
 		ti := w.rng.Intn(len(w.tables))
